@@ -642,7 +642,8 @@ func (c *PolyCtx) opaque(kind string, v ssa.Value, args ...Poly) Poly {
 		as = append(as, a.String())
 	}
 	if len(args) == 0 {
-		return c.note(polySym(fmt.Sprintf("%s#%d", kind, c.id(v))), v)
+		// `*` separates the factors of a monomial: a callee name such as (*T).M must not contain it
+		return c.note(polySym(fmt.Sprintf("%s#%d", strings.ReplaceAll(kind, "*", "·"), c.id(v))), v)
 	}
 	s := kind + "(" + strings.Join(as, ",") + ")"
 	s = strings.ReplaceAll(s, "*", "·") // keep the monomial separator unambiguous
@@ -805,6 +806,18 @@ func (c *PolyCtx) of(v ssa.Value) Poly {
 		}
 		return op
 	case *ssa.Extract:
+		// one result of a pure arithmetic helper with several results, evaluated in place
+		if call, ok := x.Tuple.(*ssa.Call); ok && isIntLike(x.Type()) {
+			if callee := call.Call.StaticCallee(); callee != nil && isModuleFn(callee) {
+				var as []Poly
+				for _, a := range call.Call.Args {
+					as = append(as, c.Of(a))
+				}
+				if p, ok := c.inlinePureN(callee, as, 0, x.Index); ok {
+					return p
+				}
+			}
+		}
 		return c.opaque(fmt.Sprintf("extract%d", x.Index), v)
 	}
 	return c.opaque("v", v)
@@ -836,6 +849,11 @@ func (c *PolyCtx) sliceSym(v ssa.Value) Poly {
 // inlinePure evaluates the result of a single-block function that only does integer
 // arithmetic on its parameters, with the given argument polynomials.
 func (c *PolyCtx) inlinePure(fn *ssa.Function, args []Poly, depth int) (Poly, bool) {
+	return c.inlinePureN(fn, args, depth, -1)
+}
+
+// inlinePureN: result number idx of a multi-result pure helper (idx < 0: the single result).
+func (c *PolyCtx) inlinePureN(fn *ssa.Function, args []Poly, depth int, idx int) (Poly, bool) {
 	if depth > 3 || fn == nil || len(fn.Blocks) != 1 || len(fn.Params) != len(args) || len(fn.FreeVars) > 0 {
 		return nil, false
 	}
@@ -906,10 +924,16 @@ func (c *PolyCtx) inlinePure(fn *ssa.Function, args []Poly, depth int) (Poly, bo
 	for _, in := range fn.Blocks[0].Instrs {
 		switch x := in.(type) {
 		case *ssa.Return:
-			if len(x.Results) != 1 {
+			if idx < 0 {
+				if len(x.Results) != 1 {
+					return nil, false
+				}
+				return eval(x.Results[0])
+			}
+			if idx >= len(x.Results) {
 				return nil, false
 			}
-			return eval(x.Results[0])
+			return eval(x.Results[idx])
 		case *ssa.BinOp, *ssa.Convert, *ssa.ChangeType, *ssa.UnOp, *ssa.DebugRef, *ssa.Call:
 		default:
 			return nil, false
